@@ -208,6 +208,8 @@ def shards(tier):
                 if o1 in (4, 7):
                     continue   # needs an instance first
                 for t1 in range(ncls):
+                    if tier == 'quick' and shape == 1 and not each:
+                        continue       # quick: the diamond only with the comparison after every step
                     if shape == 2 and (o1 not in (0, 3) or t1 < 2):
                         continue       # deep chain: programs that start by populating the namespace of / instantiating C or D
                     c = dict(shape=shape, k=k, each=each, symv=symv, watch=each, o1=o1, t1=t1)
